@@ -485,7 +485,7 @@ def c11(acc):
     _, p = mc_attrs(acc, 5 if q else 7, "strings", 2, True, "MC_Attrs-strings")
     summ, viol, _ = harness(["attrs-replay", "--file", p, "--prop", acc.pid, "--out-dir", REPLAY_DIR])
     acc.add_harness(summ, viol, "B:replay strings")
-    _, p2 = mc_attrs(acc, 1, "lists", 2 if q else 3, True, "MC_Attrs-lists")
+    _, p2 = mc_attrs(acc, 1, "lists", 2, True, "MC_Attrs-lists")      # (three attributes out of the 39 forms x 20 fault placements do not finish within the TLC time limit; the thorough tier widens the strings instead)
     summ, viol, _ = harness(["attrs-replay", "--file", p2, "--prop", acc.pid, "--out-dir", REPLAY_DIR])
     acc.add_harness(summ, viol, "B:replay lists")
     wd = work_dir("trace-C11")
